@@ -6,6 +6,7 @@ CONSTANTS
   Parts <- TraceParts
   Writers = {1}
   RSet <- TraceRSet
+  RmNodes = {}
   MaxEpoch = 0
   MaxID = 0
   G_OnePending = TRUE
@@ -18,6 +19,7 @@ CONSTANTS
   G_LeftRaft = TRUE
   G_CAS = TRUE
   G_Surplus = TRUE
+  G_Unlisted = TRUE
   CountCalls = FALSE
   MaxDown = 64
   MaxUnsynced = 64
